@@ -221,6 +221,68 @@ let ids_case (ops : string) : string =
     | _ -> failwith "ids op") (split_on ' ' ops) in
   String.concat "|" obs
 
+(* ---------- L1: trees ---------- *)
+let parse_seg (s : string) : seg =
+  match String.split_on_char ':' s with
+  | [a; b; p; f] -> { s_start = z_of_int (int_of_string a); s_stop = z_of_int (int_of_string b);
+                      s_pad = z_of_int (int_of_string p); s_fnl = (f = "1") }
+  | _ -> failwith ("seg " ^ s)
+let parse_segs (s : string) : seg list = if s = "-" then [] else List.map parse_seg (split_on ',' s)
+let opt_hex (s : string) : bytes option = if s = "n" then None else Some (bytes_of_hex (String.sub s 1 (String.length s - 1)))
+let parse_attrs (s : string) : attr list option =
+  if s = "N" then None else if s = "E" then Some [] else
+  Some (List.map (fun e -> match String.split_on_char ':' e with
+    | [n; k; v] -> { a_name = bytes_of_hex n;
+                     a_val = (match k with "b" -> AVBytes (bytes_of_hex v) | "s" -> AVString (bytes_of_hex v) | _ -> AVOther) }
+    | _ -> failwith "attr") (split_on ';' s))
+
+let parse_kind (name : string) (f : string) : kind =
+  let fs = String.split_on_char ':' f in
+  let zi s = z_of_int (int_of_string s) in
+  match name, fs with
+  | "Document", _ -> KDocument | "TextBlock", _ -> KTextBlock | "Paragraph", _ -> KParagraph
+  | "Heading", [l] -> KHeading (zi l) | "ThematicBreak", _ -> KThematicBreak | "Blockquote", _ -> KBlockquote
+  | "CodeBlock", _ -> KCodeBlock | "FencedCodeBlock", [l] -> KFencedCodeBlock (opt_hex l)
+  | "HTMLBlock", _ -> KHTMLBlock (if f = "n" then None else Some (parse_seg f))
+  | "List", [o; st] -> KList (o = "1", zi st) | "ListItem", _ -> KListItem
+  | "Text", [a; b; p; fl; soft; hard; raw] -> KText (parse_seg (String.concat ":" [a; b; p; fl]), soft = "1", hard = "1", raw = "1")
+  | "String", [v; raw; code] -> KString (bytes_of_hex v, raw = "1", code = "1")
+  | "CodeSpan", _ -> KCodeSpan | "Emphasis", [l] -> KEmphasis (zi l)
+  | "Link", [d; t] -> KLink (bytes_of_hex d, opt_hex t) | "Image", [d; t] -> KImage (bytes_of_hex d, opt_hex t)
+  | "AutoLink", [e; u; l] -> KAutoLink (e = "1", bytes_of_hex u, bytes_of_hex l)
+  | "RawHTML", _ -> KRawHTML (parse_segs f)
+  | "Table", _ -> KTable | "TableHeader", _ -> KTableHeader | "TableRow", _ -> KTableRow
+  | "TableCell", [a] -> KTableCell (match a with "1" -> ALeft | "2" -> ARight | "3" -> ACenter | _ -> ANone)
+  | "Strikethrough", _ -> KStrikethrough | "TaskCheckBox", [c] -> KTaskCheckBox (c = "1")
+  | "FootnoteLink", [i; rc; ri] -> KFootnoteLink (zi i, zi rc, zi ri)
+  | "FootnoteBacklink", [i; rc; ri] -> KFootnoteBacklink (zi i, zi rc, zi ri)
+  | "Footnote", [i] -> KFootnote (zi i) | "FootnoteList", _ -> KFootnoteList
+  | "DefinitionList", _ -> KDefinitionList | "DefinitionTerm", _ -> KDefinitionTerm
+  | "DefinitionDescription", [t] -> KDefinitionDescription (t = "1")
+  | _ -> KOther
+
+(* nodes in pre-order with depths -> tree *)
+let parse_tree (s : string) : tree =
+  let nodes = List.map (fun n -> match String.split_on_char '|' n with
+    | [d; k; f; l; a] -> (int_of_string d, parse_kind k f, parse_segs l, parse_attrs a)
+    | _ -> failwith ("node " ^ n)) (split_on '~' s) in
+  let rec build depth rest =
+    (* returns (children at depth, remaining) *)
+    match rest with
+    | (d, k, l, a) :: tl when d = depth ->
+      let (kids, tl') = build (depth + 1) tl in
+      let (sibs, tl'') = build depth tl' in
+      (Node (k, l, a, kids) :: sibs, tl'')
+    | _ -> ([], rest) in
+  match build 0 nodes with
+  | ([t], []) -> t
+  | _ -> failwith "tree shape"
+
+let parse_rcfg (s : string) : rcfg =
+  match String.split_on_char ',' s with
+  | [u; x; h; t] -> { unsafe = (u = "1"); xhtml = (x = "1"); hardwraps = (h = "1"); talign = z_of_int (int_of_string t) }
+  | _ -> failwith "rcfg"
+
 let eval (fn : string) (args : string list) : string =
   match fn, args with
   | "AstProg", [n; prog] -> let (_, _, o) = run_ast_prog (int_of_string n) prog in o
@@ -237,6 +299,25 @@ let eval (fn : string) (args : string list) : string =
        if a <> b then "SPEC-DIFF(" ^ a ^ " vs " ^ b ^ ")" else a
      | Panic, _ | _, Panic -> "PANIC"
      | _, _ -> "FUEL")
+  | "WriterWrite", [es; a] -> hex_of_bytes (writerWrite (bool_of_s es) (bytes_of_hex a))
+  | "RawWrite", [a] -> hex_of_bytes (rawWrite (bytes_of_hex a))
+  | "SecureWrite", [a] -> hex_of_bytes (secureWrite (bytes_of_hex a))
+  | "IsDangerousURL", [a] -> s_of_bool (isDangerousURL (bytes_of_hex a))
+  | "UrlValue", [unsafe; a; resolve] -> hex_of_bytes (urlValue (bool_of_s unsafe) (bytes_of_hex a) (bool_of_s resolve))
+  | "BrowserDangerous", [a] -> s_of_bool (browser_dangerous (bytes_of_hex a))
+  | "RenderAttributes", [names; attrs] ->
+    (* names: ';'-separated hex names of the filter ("nil" = no filter); attrs: name:kind:value;... *)
+    let filt = if names = "nil" then None else
+      let l = List.map bytes_of_hex (split_on ';' names) in Some (fun n -> List.mem n l) in
+    let al = List.map (fun e -> match String.split_on_char ':' e with
+      | [n; k; v] -> { a_name = bytes_of_hex n;
+                       a_val = (match k with "b" -> AVBytes (bytes_of_hex v) | "s" -> AVString (bytes_of_hex v) | _ -> AVOther) }
+      | _ -> failwith "attr") (split_on ';' attrs) in
+    hex_of_bytes (renderAttributes filt al)
+  | "RenderTree", [cfg; src; tree] ->
+    (match renderHTML (parse_rcfg cfg) (bytes_of_hex src) (parse_tree tree) with
+     | Ok o -> hex_of_bytes o | Panic -> "PANIC" | OutOfFuel -> "FUEL")
+  | "WfTree", [src; tree] -> s_of_bool (wf_tree (bytes_of_hex src) (parse_tree tree))
   | "Prio", [role; d] -> prio_case role d
   | "IdsProg", [ops] -> ids_case ops
   | "Bufio", [size; limit; ops] -> bufio_case (int_of_string size) (int_of_string limit) ops
